@@ -114,6 +114,20 @@ def check(run, model, tier):
                                          'half of an augmented assignment resets that thread\'s flag; its __set__ then acquires the lock a second time and releases it once, so the '
                                          'statement ends with the lock still held and every other thread blocks on the attribute' % flag), node=n_.ast, obligation=True)
         run.floor('writes of the hand-over flag in __get__', n_w, 1)
+        # __set__ ends the statement: it holds the lock on entry or takes it, and must reset the flag before giving the lock back
+        gs = cfg_of(st_)
+        s_self = st_.params[0]
+        s_rel = set(lock_nodes(gs, s_self, lockattr, 'release'))
+        n_ws = 0
+        for n_ in gs.nodes:
+            if n_.kind == 'stmt' and isinstance(n_.ast, ast.Assign) and any(dotted(t_) == '%s.%s' % (s_self, flag) for t_ in n_.ast.targets):
+                n_ws += 1
+                ok_ = not any(r_ is n_ or gs.exists_path(r_, n_) for r_ in s_rel)
+                run.inst('PROTO.flag-in-section', st_, 'write of %s in __set__: %s' % (flag, norm(n_.ast)), ok_,
+                         '' if ok_ else ('__set__ writes the hand-over flag %s after it has released the lock: between the release and the write another thread\'s __get__ can take the lock and '
+                                         'mark its own augmented assignment (flag False); the late write flips it back, that thread\'s __set__ then acquires the re-entrant lock a second time and '
+                                         'releases it once - the statement ends with the lock held and every other thread blocks on the attribute' % flag), node=n_.ast, obligation=True)
+        run.floor('writes of the hand-over flag in __set__', n_ws, 1)
     # ---- the regex table
     lits = regex_literals(classifier, model)
     run.floor('regex literals in the line classifier', len(lits), 1)
